@@ -77,6 +77,13 @@ theorem batches_cover_writes (c : Cache) (ws : List Hash) :
     (splitBatches c ws [] 0).flatten = ws := by
   rw [splitBatches_flatten]; simp
 
+/-- the Put/flush loop of `commit` written against the batch object (`BatchSt`: `Put` adds
+    `len(value)` to the size, `ValueSize`, `Reset`, final `Write`) issues exactly the physical
+    writes `splitBatches` describes — the flush rule of the model *is* the Go loop. -/
+theorem commit_loop_is_splitBatches (c : Cache) (ws : List Hash) :
+    commitLoop c ws ⟨[], 0⟩ [] = splitBatches c ws [] 0 := by
+  rw [commitLoop_eq]; simp
+
 /-- crash after any number `j` of physical batch writes of a commit, however
     the flush rule split it ("including commits large enough to be split over
     several batches"): every stored hash is fully resolvable. -/
@@ -272,6 +279,9 @@ exist only because the leaf callback ran. -/
 
 /-- its commit walk is the post-order `1,2,3,4,5` -/
 example : walk exS5.cache 6 5 = some [1, 2, 3, 4, 5] := by decide
+
+/-- the batch loop on the example: sizes 5,6,20,30,40 stay below the flush threshold: one final write -/
+example : commitLoop exS5.cache [1, 2, 3, 4, 5] ⟨[], 0⟩ [] = [[1, 2, 3, 4, 5]] := by decide
 
 /-- `walkO` on the example: the runtime lists code `4` before storage root `3` at the visit of `5` -/
 example : walkO exS5.cache 3 5 [(5, [4, 3])] = some ([4, 1, 2, 3, 5], []) ∧
